@@ -158,7 +158,7 @@ Definition sync_file (dst src : str) (off : nat) : M nat :=
        match rin with
        | inr e =>
            match e with
-           | ENOENT => throw_static M_src_missing
+           | ENOENT | ENOTDIR => throw_static M_src_missing     (* the path no longer leads to a file *)
            | EACCES => throw_static M_src_denied
            | _ => throw_errno e
            end;;
